@@ -461,7 +461,7 @@ recompute_factor(cholmod_sparse *A, cholmod_factor *L, long *iPerm,
 
 	/* Permute F to match L->Perm */
 	nFPerm = 0;
-	assert(nF>0);
+	assert(nF>=0); /* the passive set may be empty: a block exchange can move every free coefficient back to its bound */
 	FPerm = (long*)malloc(sizeof(long)*nF);
 	Lrows = (unsigned long*)malloc(sizeof(unsigned long)*nF);
 	if (iPerm != NULL) {
